@@ -3,6 +3,7 @@
    implementation differ · 3 the Coq specification disagrees with the Python oracle. *)
 From Coq Require Import String Ascii.
 Require Import Hdl21.Base.PyInt Hdl21.Spec.SimSpec Hdl21.Model.SimExport Hdl21.Corr.C03.
+Require Import Hdl21.Base.Dec Hdl21.Model.C17Float.
 
 (* ---- equality of abstract Sims (numbers by value) ---- *)
 Definition num_eqb (a b : num) : bool :=
@@ -178,3 +179,30 @@ Definition chk_near (c : near_case) : Z :=
 (* ---- spec validation: the name generator against f"Analysis{n}" ---- *)
 Definition chk_autoname (c : N * string) : Z :=
   if String.eqb (auto_name (fst c)) (snd c) then 0 else 3.
+
+(* ---- float path (strengthening round): hdl21.sim.proto.export_float on one Prefixed (number nm*10^ne, prefix pe).
+   Observed: the Decimal that Prefixed.__float__ hands to float() (self.scale(Prefix.UNIT).number: sign, coefficient,
+   exponent) and the double export_float returns (None: it raised).
+   1: the double is not the nearest double of the prefixed value (the property);
+   2: the Decimal differs, digit for digit, from the model's (Model/C17Float.v: unit_number_ctx None), or the double is not
+      a correct rounding of the model's Decimal. *)
+Definition fpath_case := (Z * Z * Z * (bool * Z * Z) * option dbl)%type.
+Definition chk_fpath (c : fpath_case) : Z :=
+  let '(nm, ne, pe, (sg, co, ex), r) := c in
+  match r with
+  | None => 1
+  | Some d =>
+      if negb (nearest_double nm (ne + pe) d) then 1
+      else
+        let u := unit_number_ctx None (num_pfx nm ne pe) in
+        if Bool.eqb sg (dsign u) && (co =? Z.of_N (dcoef u)) && (ex =? dexp u) && nearest_double (dint u) (dexp u) d then 0 else 2
+  end.
+(* diagnosis: the observed double is what a correctly rounding float() returns for the product evaluated in 28 digits *)
+Definition fpath_ctx28 (c : fpath_case) : Z :=
+  let '(nm, ne, pe, _, r) := c in
+  match r with
+  | Some d => let u := unit_number_ctx (Some 28) (num_pfx nm ne pe) in
+              if nearest_double (dint u) (dexp u) d && negb (nearest_double nm (ne + pe) d) then 1 else 0
+  | None => 0
+  end.
+Definition chk_fpath_both (c : fpath_case) : Z := chk_fpath c + 4 * fpath_ctx28 c.
